@@ -37,6 +37,7 @@ CONSTANTS N,          \* evaluation window / interval
           MaxDt,      \* ticks that may pass between two evaluations
           MaxEdits,   \* UserEdit actions per history
           MaxSil,     \* Silence/Unsilence actions per history
+          MaxFails,   \* evaluations at which the contact point is unreachable (delivery fails)
           RowsDelta   \* the code reads the newest N-1+RowsDelta earlier rows: 0 as written;
                       \* -1 / +1 are model mutants (sensitivity of the model)
 
@@ -45,8 +46,9 @@ VARIABLES hist, state, lastSent, lastNotif, silence, now,
           sent,     \* notification emitted by the last action ("none" if not an evaluation)
           law, adm, \* law state / admissible set computed at the last evaluation
           isEval,   \* the last action was an evaluation
-          dt, nEdit, nSil, quiet  \* bounding counters; quiet = a non-evaluation action just happened
-vars == <<hist, state, lastSent, lastNotif, silence, now, g, sent, law, adm, isEval, dt, nEdit, nSil, quiet>>
+          dt, nEdit, nSil, quiet, \* bounding counters; quiet = a non-evaluation action just happened
+          nFail, tried            \* failing deliveries so far; the last evaluation attempted a delivery
+vars == <<hist, state, lastSent, lastNotif, silence, now, g, sent, law, adm, isEval, dt, nEdit, nSil, quiet, nFail, tried>>
 
 PendingOrFiring(s) == s \in {"Pending", "Firing"}
 Rows == N - 1 + RowsDelta
@@ -61,51 +63,62 @@ CodeShouldSend(s) == /\ ~(s = "Normal" /\ lastNotif \in {"Inactive", "Normal"})
 
 Init == /\ hist = <<>> /\ state = "Inactive" /\ lastSent = -1 /\ lastNotif = "Inactive"
         /\ silence = 0 /\ now = 0 /\ g = Ghost0 /\ sent = "none" /\ law = "Inactive" /\ adm = {"none"}
-        /\ isEval = FALSE /\ dt = 0 /\ nEdit = 0 /\ nSil = 0 /\ quiet = FALSE
+        /\ isEval = FALSE /\ dt = 0 /\ nEdit = 0 /\ nSil = 0 /\ quiet = FALSE /\ nFail = 0 /\ tried = FALSE
 
-Evaluate(c) ==
+(* d = "ok" | "fail": whether the contact point is reachable at this evaluation (an input).
+   NotifyAlertHandlerRequest returns (false, err) when nothing could be delivered; handleAlertCondition
+   logs the error and goes on: the state, the history row and the evaluation counter are written all
+   the same, only last_sent_time / last_alert_state stay as they were. *)
+Evaluate(c, d) ==
   /\ Len(g.cs) < MaxEvals
+  /\ d = "fail" => nFail < MaxFails
   /\ LET newState == IF c THEN (IF CodeShouldFire THEN "Firing" ELSE "Pending") ELSE "Normal"
          doSend == newState \in {"Firing", "Normal"} /\ CodeShouldSend(newState)
-         s == IF doSend THEN newState ELSE "none"
-         r == LawEval(g, c, s, N, Cool)
+         delivered == doSend /\ d = "ok"
+         s == IF delivered THEN newState ELSE "none"
+         r == LawEval(g, c, s, N, Cool, d = "fail")
      IN /\ hist' = Append(hist, [state |-> newState, isEval |-> TRUE])
         /\ state' = newState
-        /\ lastSent' = IF doSend THEN now ELSE lastSent
-        /\ lastNotif' = IF doSend THEN newState ELSE lastNotif
+        /\ lastSent' = IF delivered THEN now ELSE lastSent
+        /\ lastNotif' = IF delivered THEN newState ELSE lastNotif
         /\ sent' = s /\ g' = r.g /\ law' = r.law /\ adm' = r.adm
+        /\ tried' = doSend
+  /\ nFail' = IF d = "fail" THEN nFail + 1 ELSE nFail
   /\ isEval' = TRUE /\ dt' = 0 /\ quiet' = FALSE
   /\ UNCHANGED <<silence, now, nEdit, nSil>>
 
 Tick == /\ dt < MaxDt /\ Len(g.cs) < MaxEvals
         /\ now' = now + 1 /\ dt' = dt + 1 /\ g' = LawTick(g)
         /\ sent' = "none" /\ isEval' = FALSE
-        /\ UNCHANGED <<hist, state, lastSent, lastNotif, silence, law, adm, nEdit, nSil, quiet>>
+        /\ UNCHANGED <<hist, state, lastSent, lastNotif, silence, law, adm, nEdit, nSil, quiet, nFail, tried>>
 
 (* ProcessUpdateAlertRequest with an unchanged configuration: UpdateAlert keeps the
    state, a "Config Modified" history row with the zero AlertState is appended *)
 UserEdit == /\ nEdit < MaxEdits /\ ~quiet /\ Len(g.cs) < MaxEvals
             /\ hist' = Append(hist, [state |-> "Inactive", isEval |-> FALSE])
             /\ nEdit' = nEdit + 1 /\ quiet' = TRUE /\ sent' = "none" /\ isEval' = FALSE
-            /\ UNCHANGED <<state, lastSent, lastNotif, silence, now, g, law, adm, dt, nSil>>
+            /\ UNCHANGED <<state, lastSent, lastNotif, silence, now, g, law, adm, dt, nSil, nFail, tried>>
 
 (* ProcessSilenceAlertRequest / ProcessUnsilenceAlertRequest: no history row *)
 Silence == /\ nSil < MaxSil /\ ~quiet /\ silence = 0 /\ Len(g.cs) < MaxEvals
            /\ silence' = SilLen /\ g' = LawSilence(g, TRUE)
            /\ nSil' = nSil + 1 /\ quiet' = TRUE /\ sent' = "none" /\ isEval' = FALSE
-           /\ UNCHANGED <<hist, state, lastSent, lastNotif, now, law, adm, dt, nEdit>>
+           /\ UNCHANGED <<hist, state, lastSent, lastNotif, now, law, adm, dt, nEdit, nFail, tried>>
 Unsilence == /\ nSil < MaxSil /\ ~quiet /\ silence # 0 /\ Len(g.cs) < MaxEvals
              /\ silence' = 0 /\ g' = LawSilence(g, FALSE)
              /\ nSil' = nSil + 1 /\ quiet' = TRUE /\ sent' = "none" /\ isEval' = FALSE
-             /\ UNCHANGED <<hist, state, lastSent, lastNotif, now, law, adm, dt, nEdit>>
+             /\ UNCHANGED <<hist, state, lastSent, lastNotif, now, law, adm, dt, nEdit, nFail, tried>>
 
-Next == (\E c \in BOOLEAN : Evaluate(c)) \/ Tick \/ UserEdit \/ Silence \/ Unsilence
+Next == (\E c \in BOOLEAN, d \in {"ok", "fail"} : Evaluate(c, d)) \/ Tick \/ UserEdit \/ Silence \/ Unsilence
 Spec == Init /\ [][Next]_vars
 
 -----------------------------------------------------------------------------
 (* Required law, evaluated after every evaluation *)
 StateLaw == isEval => state = law
 NotifLaw == isEval => sent \in adm
+(* the history and the evaluation counter follow the evaluations, whatever the delivery did *)
+HistoryLaw == /\ Len(SelectSeq(hist, LAMBDA r : r.isEval)) = Len(g.cs)
+              /\ isEval => hist[Len(hist)].state = law
 (* the code's own bookkeeping agrees with what really happened *)
 Bookkeeping == /\ lastSent = g.lastSent
                /\ (lastNotif = "Inactive") = (g.lastKind = "none")
